@@ -368,7 +368,8 @@ def emitNode (n : Node) (needsClose : Bool) (nextSib : Option Node) (g : G) (w :
     let endS := if hasBlock && isOpening && !hasSuffix code (bs "{") then bs " {\n" else bs "\n"
     let (g, w, _) := twWriteIndent g w start
     let (g, w, r) := twWrite g w code
-    let g := g.add o r
+    -- what is registered is what was written: the statement without the white space around it
+    let g := g.add { o with lit := code, col := o.col + (utf16Len (o.lit.takeWhile isSpaceByte) : Nat) } r
     let (g, w, _) := twWrite g w endS
     if !hasBlock then pure (g, w) else
     let iw := { w with indent := w.indent + 1 }
